@@ -9,12 +9,13 @@ mod c06;
 mod c10;
 mod c11;
 mod c12;
+mod c13;
 mod c15;
 
 use fw::*;
 
 fn defs() -> Vec<CheckDef> {
-    vec![c01::DEF, c05::DEF, c06::DEF, c10::DEF, c11::DEF, c12::DEF, c15::DEF]
+    vec![c01::DEF, c05::DEF, c06::DEF, c10::DEF, c11::DEF, c12::DEF, c13::DEF, c15::DEF]
 }
 
 fn arg_after(args: &[String], flag: &str) -> Option<String> {
